@@ -37,6 +37,9 @@ theorem tab_endMotd : Gen.Conn.toEndMotd = .CONNECTED ∧ ∀ f, Gen.Conn.guardE
 theorem tab_tryNext : ∀ f, Gen.Conn.expectTryNextSasl.contains f = true → isSaslState f = true := by
   intro f; cases f <;> decide
 
+theorem tab_do903 : ∀ f, Gen.Conn.expectDo903.contains f = true → isSaslState f = true := by
+  intro f; cases f <;> decide
+
 theorem tab_doAuth : ∀ f, Gen.Conn.expectDoAuthenticate.contains f = true → isSaslState f = true := by
   intro f; cases f <;> decide
 
@@ -321,9 +324,13 @@ theorem ref_doAuthenticate (cmd : Str) (args : List Str) (s : St) (hK : K .paylo
         · exact .of_eq rfl
         · exact Ref.of_α_eq (ref_authRespond _ _ hK (by simpa using hsasl)) rfl
 
-theorem ref_do903 (s : St) : Ref cfg K s (do903 cfg s) := by
+theorem ref_do903 (s : St) (hK : K .authPerm = true) : Ref cfg K s (do903 cfg s) := by
   unfold do903
-  have h1 : Moves cfg K (α s) (α ({ s with saslAuth := true } : St)) := .single (.authOk (α s))
+  refine Ref.bind (ref_expectState _ s) fun h => ?_
+  obtain ⟨hs, hc⟩ := expectState_ok h
+  rw [hs]
+  have hsasl := tab_do903 _ hc
+  have h1 : Moves cfg K (α s) (α ({ s with saslAuth := true } : St)) := .single (.authOk (α s) hsasl hK)
   refine Ref.bind (Moves.trans h1 (ref_onSaslAuthFinished _)) fun _ => ?_
   split
   · exact ref_endCap _
@@ -566,6 +573,7 @@ def handlerKinds : Handler → Kind → Bool
   | .n43x, k => k = .nick
   | .ping, k => k = .pong
   | .error, k => k = .connPerm
+  | .n903, k => k = .authPerm
   | _, _ => false
 
 theorem ref_runHandler (m : Msg) (s : St) : Ref cfg (handlerKinds (dispatch m)) s (runHandler cfg m s) := by
@@ -577,7 +585,7 @@ theorem ref_runHandler (m : Msg) (s : St) : Ref cfg (handlerKinds (dispatch m)) 
   · exact ref_doCapNew _ _ (by decide)
   · exact ref_doCapDel _ _
   · exact ref_doAuthenticate _ _ _ (by decide)
-  · exact ref_do903 _
+  · exact ref_do903 _ (by decide)
   · exact ref_tryNextSasl _ (by decide)
   · exact ref_do908 _ _
   · exact ref_do002 _ _
